@@ -23,6 +23,12 @@ def cond() -> bool:
 def it() -> list[int]:
     return []
 
+def wrapv(v: object) -> list[int]:
+    return []
+
+def subj() -> object:
+    return 0
+
 class cm:
     def __enter__(self) -> None:
         return None
@@ -37,30 +43,84 @@ class scm:
 '''
 
 
-def render_block(block: list[dict], ind: int, out: list[str], uses: dict[int, tuple[int, str]], sfx: str = "") -> None:
+class Maps:
+    """Where the renderer put things (line numbers in the module being built)."""
+
+    def __init__(self) -> None:
+        self.uses: dict[int, tuple[int, str]] = {}    # line of a use in the function's own scope -> (use id, variable)
+        self.nested: dict[int, tuple[int, str]] = {}  # line of the scope node of a read from a nested scope -> (use id, variable)
+        self.defs: dict[int, tuple[int, str]] = {}    # line of a binding -> (id, statement kind)
+        self.foreign: set[int] = set()                # lines whose bindings belong to an inner scope
+
+
+# how reads / bindings inside an inner scope are spelled, per program: form -> (read, binding)
+# (a class body READING a function variable is outside the domain: in the checking phase pyanalyze resolves it without a
+# node context, i.e. flow-insensitively from name_to_all_definition_nodes, by design -- stacked_scopes.py:1143)
+INNER_FORMS = {"comp": ("comp", "comp"), "lam": ("lam", "lam"), "cls": ("comp", "cls")}
+
+
+def render_block(block: list[dict], ind: int, out: list[str], uses: Any, sfx: str = "", form: str = "comp") -> None:
     # sfx: suffix of variable names (a batch of functions shares one module; `nonlocal` before the enclosing
     # function's first assignment leaks the name into the module scope, which must not reach the other functions)
+    # form: how reads / bindings inside an inner scope are spelled (comprehension, lambda, class body)
+    maps = uses if isinstance(uses, Maps) else None
+    if maps is not None:
+        uses = maps.uses
     pad = "    " * ind
     if not block:
         out.append(pad + "pass")
         return
+
+    def bind(s: dict) -> None:
+        if maps is not None:
+            maps.defs[len(out)] = (s["id"], s["k"])
+
     for s in block:
         k = s["k"]
         if k == "assign":
             out.append(f"{pad}{s['v']}{sfx} = {s['id']}")
+            bind(s)
         elif k == "use":
             out.append(f"{pad}{s['v']}{sfx}")
             uses[len(out)] = (s["id"], s["v"])
         elif k == "call":
             out.append(f"{pad}cond()")
+        elif k == "aug":
+            out.append(f"{pad}{s['v']}{sfx} += 1")
+            uses[len(out)] = (s["id"], s["v"])
+            bind(s)
+        elif k == "import":
+            out.append(f"{pad}import os as {s['v']}{sfx}")
+            bind(s)
+        elif k == "exas":
+            pass          # rendered with the handler's header
+        elif k == "citer":
+            out.append(f"{pad}[0 for _ in wrapv({s['v']}{sfx})]")
+            uses[len(out)] = (s["id"], s["v"])
+        elif k == "cuse":
+            v = f"{s['v']}{sfx}"
+            out.append(pad + {"comp": f"[{v} for _ in it()]", "lam": f"(lambda: {v})()"}[INNER_FORMS[form][0]])
+            if maps is not None:
+                maps.nested[len(out)] = (s["id"], s["v"])
+        elif k == "cbind":
+            v = f"{s['v']}{sfx}"
+            out.append(pad + {"comp": f"[0 for {v} in it()]", "lam": f"(lambda {v}: 0)(0)", "cls": f"class C{s['id']}: {v} = 0"}[INNER_FORMS[form][1]])
+            if maps is not None:
+                maps.foreign.add(len(out))
+        elif k == "cwal":
+            out.append(f"{pad}[({s['v']}{sfx} := 0) for _ in it()]")
+            bind(s)
         elif k == "defg":
             out.append(f"{pad}def g{s['id']}() -> None:")
+            if maps is not None:
+                maps.nested[len(out)] = (s["id"], s["v"])
             out.append(f"{pad}    {s['v']}{sfx}")
             uses[len(out)] = (s["id"], s["v"])
         elif k == "defn":
             out.append(f"{pad}def g{s['id']}() -> None:")
             out.append(f"{pad}    nonlocal {s['v']}{sfx}")
             out.append(f"{pad}    {s['v']}{sfx} = {s['id']}")
+            bind(s)
         elif k == "callg":
             out.append(f"{pad}g{s['t']}()")
         elif k == "return":
@@ -69,34 +129,54 @@ def render_block(block: list[dict], ind: int, out: list[str], uses: dict[int, tu
             out.append(f"{pad}raise Exception()")
         elif k in ("break", "continue"):
             out.append(pad + k)
-        elif k == "if":
-            out.append(f"{pad}if cond():")
-            render_block(s["body"], ind + 1, out, uses, sfx)
+        elif k in ("if", "ifw"):
+            out.append(f"{pad}if cond():" if k == "if" else f"{pad}if ({s['v']}{sfx} := cond()):")
+            if k == "ifw":
+                bind(s)
+            render_block(s["body"], ind + 1, out, maps or uses, sfx, form)
             if s["orelse"]:
                 out.append(f"{pad}else:")
-                render_block(s["orelse"], ind + 1, out, uses, sfx)
-        elif k in ("while", "for"):
-            head = "for _ in it():" if k == "for" else ("while True:" if s["true"] else "while cond():")
+                render_block(s["orelse"], ind + 1, out, maps or uses, sfx, form)
+        elif k in ("while", "for", "forv"):
+            head = (f"for {s['v']}{sfx} in it():" if k == "forv" else "for _ in it():" if k == "for"
+                    else ("while True:" if s["true"] else "while cond():"))
             out.append(pad + head)
-            render_block(s["body"], ind + 1, out, uses, sfx)
+            if k == "forv":
+                bind(s)
+            render_block(s["body"], ind + 1, out, maps or uses, sfx, form)
             if s["orelse"]:
                 out.append(f"{pad}else:")
-                render_block(s["orelse"], ind + 1, out, uses, sfx)
-        elif k == "with":
-            out.append(f"{pad}with {'scm' if s['supp'] else 'cm'}():")
-            render_block(s["body"], ind + 1, out, uses, sfx)
+                render_block(s["orelse"], ind + 1, out, maps or uses, sfx, form)
+        elif k in ("with", "withas"):
+            out.append(f"{pad}with {'scm' if s['supp'] else 'cm'}()" + (f" as {s['v']}{sfx}:" if k == "withas" else ":"))
+            if k == "withas":
+                bind(s)
+            render_block(s["body"], ind + 1, out, maps or uses, sfx, form)
+        elif k == "match":
+            out.append(f"{pad}match subj():")
+            for c in s["cases"]:
+                pat = {"cap": f"{s['v']}{sfx}", "seq": f"[{s['v']}{sfx}]", "wild": "_"}[c["pat"]]
+                out.append(f"{pad}    case {pat}" + (" if cond():" if c["guard"] else ":"))
+                if c["pat"] != "wild" and maps is not None:
+                    maps.defs[len(out)] = (c["id"], "capture")
+                render_block(c["body"], ind + 2, out, maps or uses, sfx, form)
         elif k == "try":
             out.append(f"{pad}try:")
-            render_block(s["body"], ind + 1, out, uses, sfx)
+            render_block(s["body"], ind + 1, out, maps or uses, sfx, form)
             for h in s["handlers"]:
-                out.append(f"{pad}except Exception:")
-                render_block(h, ind + 1, out, uses, sfx)
+                if h and h[0]["k"] == "exas":
+                    out.append(f"{pad}except Exception as {h[0]['v']}{sfx}:")
+                    bind(h[0])
+                    render_block(h[1:], ind + 1, out, maps or uses, sfx, form)
+                else:
+                    out.append(f"{pad}except Exception:")
+                    render_block(h, ind + 1, out, maps or uses, sfx, form)
             if s["orelse"]:
                 out.append(f"{pad}else:")
-                render_block(s["orelse"], ind + 1, out, uses, sfx)
+                render_block(s["orelse"], ind + 1, out, maps or uses, sfx, form)
             if s["final"]:
                 out.append(f"{pad}finally:")
-                render_block(s["final"], ind + 1, out, uses, sfx)
+                render_block(s["final"], ind + 1, out, maps or uses, sfx, form)
         else:
             raise core.MachineryError(f"cannot render statement {s}")
 
@@ -116,130 +196,417 @@ def literals_of(value: Any) -> list[int]:
     return out
 
 
-def observe_batch(arg: tuple[int, list[dict]]) -> list[dict]:
-    start, progs = arg
+NAME_DEF_KINDS = ("assign", "aug", "ifw", "withas", "forv", "cwal")   # = ScopeGen!NameDefKinds
+_captured: list[Any] = []
+_capture_installed = False
+
+
+def _install_capture() -> None:
+    """Record every FunctionScope when its unused-variable check runs (i.e. after both visits of the function):
+    the state anchor usage_to_definition_nodes is read from it.  Wraps a method in this process only."""
+    global _capture_installed
+    if _capture_installed:
+        return
+    from pyanalyze.name_check_visitor import NameCheckVisitor
+
+    orig = NameCheckVisitor._check_function_unused_vars
+
+    def wrapper(self: Any, scope: Any, enclosing_statement: Any = None) -> Any:
+        _captured.append(scope)
+        return orig(self, scope, enclosing_statement)
+
+    NameCheckVisitor._check_function_unused_vars = wrapper
+    _capture_installed = True
+
+
+def _resolve_nodes(scope: Any, nodes: list[Any]) -> list[Any]:
+    """Definition nodes behind constraint pseudo-nodes (FunctionScope._resolve_origin without the origin cut-off)."""
+    from pyanalyze import stacked_scopes as ss
+
+    out: list[Any] = []
+    seen: set[int] = set()
+    pending = list(nodes)
+    while pending:
+        d = pending.pop(0)
+        if id(d) in seen:
+            continue
+        seen.add(id(d))
+        val = None if d is ss._UNINITIALIZED else scope.definition_node_to_value.get(d)
+        if isinstance(val, ss._ConstrainedValue):
+            pending.extend(val.definition_nodes)
+        else:
+            out.append(d)
+    return out
+
+
+def observe_batch(arg: tuple) -> list[dict]:
+    """mode "value": the definitions reaching a use are read off the inferred value (every assignment is a distinct
+    int literal); mode "nodes": they are read from the function scope's usage_to_definition_nodes (needed for
+    bindings without a literal value: imports, `as` targets, loop targets, ...).  In both modes the (possibly)
+    undefined-name diagnostics decide whether "unbound" is reported, and the unused_variable / unused_assignment
+    diagnostics are recorded per binding."""
+    start, progs = arg[0], arg[1]
+    mode = arg[2] if len(arg) > 2 else "value"
+    from pyanalyze import stacked_scopes as ss
+
     lines = PRELUDE.strip("\n").split("\n")
-    where: list[tuple[int, dict[int, tuple[int, str]]]] = []
+    where: list[tuple[int, Maps]] = []
     for j, p in enumerate(progs):
         lines.append("")
         lines.append(f"def f_{j}() -> None:")
-        uses: dict[int, tuple[int, str]] = {}
-        render_block(p["prog"], 1, lines, uses, f"_{j}")
-        where.append((j, uses))
+        maps = Maps()
+        render_block(p["prog"], 1, lines, maps, f"_{j}", p.get("form", "comp"))
+        where.append((j, maps))
     src = "\n".join(lines) + "\n"
+    if mode == "nodes":
+        _install_capture()
+        _captured.clear()
     fails, visitor, tree = pyz.check_source(src, annotate=True, want_visitor=True)
     undefined_lines: dict[int, list[str]] = {}
+    unused_lines: dict[int, list[str]] = {}
     for code, lineno, _col in pyz.brief(fails):
         if code in ("undefined_name", "possibly_undefined_name"):
             undefined_lines.setdefault(lineno, []).append(code)
+        elif code in ("unused_variable", "unused_assignment"):
+            unused_lines.setdefault(lineno, []).append(code)
         elif code in ("internal_error",):
             raise core.MachineryError(f"internal_error while checking generated skeletons at line {lineno}")
     values: dict[int, Any] = {}
-    for node in ast.walk(tree):
-        if isinstance(node, ast.Expr) and isinstance(node.value, ast.Name) and isinstance(node.value.ctx, ast.Load):
-            values[node.lineno] = getattr(node.value, "inferred_value", None)
+    scopes: dict[str, Any] = {}
+    if mode == "value":
+        for node in ast.walk(tree):
+            if isinstance(node, ast.Expr) and isinstance(node.value, ast.Name) and isinstance(node.value.ctx, ast.Load):
+                values[node.lineno] = getattr(node.value, "inferred_value", None)
+    else:
+        for sc in _captured:
+            if isinstance(sc.scope_node, ast.FunctionDef):
+                scopes[sc.scope_node.name] = sc
+        _captured.clear()
+    claimed: set[int] = set()
     obs = []
-    for (j, uses), p in zip(where, progs):
+    for (j, maps), p in zip(where, progs):
         rec = []
-        for lineno, (uid, var) in sorted(uses.items()):
-            val = values.get(lineno)
-            if val is None:
-                raise core.MachineryError(f"no inferred value for the use on line {lineno}\n{src}")
-            defs = sorted(set(literals_of(val)))
-            if undefined_lines.get(lineno):
-                defs = [0] + defs
-            rec.append([uid, defs])
-        obs.append({"tid": start + j, "prog": p["prog"], "uses": rec})
+        marks = []
+        if mode == "value":
+            for lineno, (uid, var) in sorted(maps.uses.items()):
+                val = values.get(lineno)
+                if val is None:
+                    raise core.MachineryError(f"no inferred value for the use on line {lineno}\n{src}")
+                defs = sorted(set(literals_of(val)))
+                if undefined_lines.get(lineno):
+                    defs = [0] + defs
+                rec.append([uid, defs])
+        else:
+            sc = scopes.get(f"f_{j}")
+            if sc is None:
+                raise core.MachineryError(f"no function scope captured for f_{j}")
+            found: dict[int, list[Any]] = {}
+            for (knode, kname), nodes in sc.usage_to_definition_nodes.items():
+                if isinstance(knode, ast.Name) and maps.uses.get(knode.lineno, (None, None))[1] is not None:
+                    uid, var = maps.uses[knode.lineno]
+                elif isinstance(knode, tuple) and len(knode) == 2 and isinstance(knode[1], ast.AST) \
+                        and getattr(knode[1], "lineno", None) in maps.nested:
+                    uid, var = maps.nested[knode[1].lineno]
+                else:
+                    continue
+                if kname != f"{var}_{j}":
+                    continue
+                found.setdefault(uid, []).extend(_resolve_nodes(sc, nodes))
+            # (a nested def appears in both maps with the same id: the diagnostic is on the line of the inner read)
+            all_uses = {uid: ln for ln, (uid, _v) in maps.nested.items()}
+            all_uses.update({uid: ln for ln, (uid, _v) in maps.uses.items()})
+            for uid, ln in sorted(all_uses.items()):
+                ids: set[int] = set()
+                marker = uid not in found
+                for d in found.get(uid, []):
+                    if d is ss._UNINITIALIZED:
+                        marker = True
+                    elif getattr(d, "lineno", None) in maps.defs:
+                        ids.add(maps.defs[d.lineno][0])
+                    else:
+                        raise core.MachineryError(f"definition node {d!r} of use {uid} in f_{j} is not a rendered binding\n{src}")
+                if undefined_lines.get(ln):
+                    ids.add(0)
+                rec.append([uid, sorted(ids)])
+                marks.append([uid, 1 if marker else 0])
+        unused = []
+        for ln, (did, kind) in sorted(maps.defs.items()):
+            if unused_lines.get(ln):
+                claimed.add(ln)
+                if kind not in NAME_DEF_KINDS:
+                    raise core.MachineryError(f"unused-variable report for a binding of kind {kind} on line {ln}\n{src}")
+                unused.append(did)
+        claimed |= maps.foreign
+        o = {"tid": start + j, "prog": p["prog"], "uses": rec, "unused": unused, "marks": marks}
+        if "form" in p:
+            o["form"] = p["form"]
+        obs.append(o)
+    stray = sorted(set(unused_lines) - claimed)
+    if stray:
+        raise core.MachineryError(f"unused-variable reports on lines {stray} that are not bindings of a generated function\n{src}")
     return obs
 
 
-def render_one(prog: list[dict]) -> str:
+def render_one(prog: list[dict], form: str = "comp") -> str:
     lines = ["def f() -> None:"]
-    render_block(prog, 1, lines, {})
+    render_block(prog, 1, lines, {}, "", form)
     return "\n".join(lines)
 
 
-def judge(check: core.Check, progs: list[dict], label: str) -> None:
-    progs = [p for p in progs if _has_use(p["prog"])]
-    batches = [(i, progs[i : i + 150]) for i in range(0, len(progs), 150)]
+def judge(check: core.Check, progs: list[dict], label: str, mode: str = "value", need_use: bool = True) -> None:
+    if need_use:
+        progs = [p for p in progs if _has_use(p["prog"])]
+    batches = [(i, progs[i : i + 150], mode) for i in range(0, len(progs), 150)]
     parts = core.pmap(observe_batch, batches, chunk=1)
     obs = [o for part in parts for o in part]
-    verdicts, stats = core.adjudicate("ScopesTrace", "ScopesTrace.cfg", obs, batch=120, parallel=14, timeout=1500)
+    # one JVM start costs more than judging a few hundred observations: at most 14 batches, run side by side
+    batch = min(2500, max(150, -(-len(obs) // 14)))
+    verdicts, stats = core.adjudicate("ScopesTrace", "ScopesTrace.cfg", obs, batch=batch, parallel=14, timeout=1500)
     check.add_trace_stats(stats)
     check.evals(len(obs))
     by_tid = {o["tid"]: o for o in obs}
     for tid, vs in verdicts.items():
         o = by_tid[tid]
-        payload = {"case": {"prog": o["prog"]}, "src": render_one(o["prog"]), "uses": o["uses"], "source": label}
+        form = o.get("form", "comp")
+        payload = {"case": {"prog": o["prog"], "mode": mode, "form": form}, "src": render_one(o["prog"], form), "uses": o["uses"],
+                   "unused": o["unused"], "source": label}
         for v in set(vs):
             if v.startswith("viol:"):
                 check.violation(core.canon(o["prog"]), v[5:], payload)
             elif v.startswith("dev:"):
                 check.violation(v[4:], v[4:], payload)
+            elif v.startswith("info:"):
+                check.cov["information"][v[5:]] = check.cov["information"].get(v[5:], 0) + 1
             else:
                 check.drift({"verdict": v, **payload})
+    check.cov["bindings_judged_for_unused"] = check.cov.get("bindings_judged_for_unused", 0) + sum(
+        _count_defs(o["prog"]) for o in obs)
+    check.cov["unused_reports_seen"] = check.cov.get("unused_reports_seen", 0) + sum(len(o["unused"]) for o in obs)
     for o in obs:
         if any(s["k"] not in ("assign", "use", "call", "callg") for s in o["prog"]):
             check.nontrivial(core.canon(o["prog"]))
     for o in obs[:: max(1, len(obs) // 3)][:3]:
-        check.sample({"source": label, "src": render_one(o["prog"]), "uses": o["uses"]})
+        check.sample({"source": label, "src": render_one(o["prog"], o.get("form", "comp")), "uses": o["uses"], "unused": o["unused"]},
+                     limit=12)
+
+
+def _blocks(s: dict) -> list[list[dict]]:
+    return [s[key] for key in ("body", "orelse", "final") if key in s] + list(s.get("handlers", [])) + [c["body"] for c in s.get("cases", [])]
+
+
+def _count_defs(block: list[dict]) -> int:
+    return sum((1 if s["k"] in NAME_DEF_KINDS else 0) + sum(_count_defs(b) for b in _blocks(s))
+               for s in block)
 
 
 def _has_use(block: list[dict]) -> bool:
     for s in block:
-        if s["k"] in ("use", "defg"):
+        if s["k"] in ("use", "defg", "aug", "cuse", "citer"):
             return True
-        for key in ("body", "orelse", "final"):
-            if key in s and _has_use(s[key]):
-                return True
-        for h in s.get("handlers", []):
-            if _has_use(h):
-                return True
+        if any(_has_use(b) for b in _blocks(s)):
+            return True
     return False
+
+
+def _tlc_many(jobs: list[tuple[str, str, str]]) -> dict[str, core.TLCResult]:
+    """Run independent generator / model-checking configurations side by side (each is short and far from using 16 cores)."""
+    from concurrent.futures import ThreadPoolExecutor
+
+    with ThreadPoolExecutor(max(1, len(jobs))) as ex:
+        futs = {name: ex.submit(core.run_tlc, module, cfg, timeout=3400) for name, module, cfg in jobs}
+        return {name: f.result() for name, f in futs.items()}
+
+
+def _with_forms(progs: list[dict]) -> list[dict]:
+    """Every body of the inner-scope slice is rendered with comprehensions and with lambdas; bodies with a binding
+    inside an inner scope also with a class body."""
+    out = []
+    for p in progs:
+        forms = ["comp", "lam"] + (["cls"] if _has_kind(p["prog"], "cbind") else [])
+        out += [dict(p, form=f) for f in forms]
+    return out
+
+
+def _has_kind(block: list[dict], kind: str) -> bool:
+    return any(s["k"] == kind or any(_has_kind(b, kind) for b in _blocks(s)) for s in block)
+
+
+# Sensitivity of the oracle clauses added with the binding forms / inner scopes / the unused-variable observable:
+# (program, what the real checker would have to report for the clause to be vacuous, verdict TLC must give).
+def _a(v: str, i: int) -> dict:
+    return {"k": "assign", "v": v, "id": i}
+
+
+def _u(v: str, i: int) -> dict:
+    return {"k": "use", "v": v, "id": i}
+
+
+def _try(i: int, body: list, handlers: list, orelse: list = [], final: list = []) -> dict:
+    return {"k": "try", "id": i, "body": body, "handlers": handlers, "orelse": orelse, "final": final}
+
+
+SELFTEST: list[tuple[str, list[dict], list[list], list[int], str]] = [
+    # a live assignment reported as unused
+    ("unused-live", [_a("x", 1), _u("x", 2)], [[2, [1]]], [1], "viol:UsedAssignmentReportedUnused"),
+    ("unused-dead-ok", [_a("x", 1), _a("x", 2), _u("x", 3)], [[3, [2]]], [1], "ok"),
+    ("unused-info", [_a("x", 1), _a("x", 2), _u("x", 3)], [[3, [2]]], [], "info:UnusedAssignmentNotReported"),
+    # x += 1: the read sees the earlier binding, later reads see the augmented assignment only
+    ("aug-read", [_a("x", 1), {"k": "aug", "v": "x", "id": 2}, _u("x", 3)], [[2, []], [3, [2]]], [], "viol:ReachingDefinitions"),
+    ("aug-bind", [_a("x", 1), {"k": "aug", "v": "x", "id": 2}, _u("x", 3)], [[2, [1]], [3, [1]]], [], "viol:ReachingDefinitions"),
+    ("aug-unbound", [{"k": "aug", "v": "x", "id": 1}], [[1, []]], [], "viol:ReachingDefinitions"),
+    ("import-binds", [{"k": "import", "v": "x", "id": 1}, _u("x", 2)], [[2, [0]]], [], "viol:ReachingDefinitions"),
+    # except E as x: bound inside the handler, unbound after it
+    ("exas-inside", [_try(1, [{"k": "call", "id": 2}], [[{"k": "exas", "v": "x", "id": 3}, _u("x", 4)]])], [[4, [0]]], [],
+     "viol:ReachingDefinitions"),
+    ("exas-after-ok", [_try(1, [{"k": "call", "id": 2}], [[{"k": "exas", "v": "x", "id": 3}]]), _u("x", 4)], [[4, [0]]], [],
+     "drift:reported"),
+    ("exas-after", [_a("x", 1), _try(2, [{"k": "call", "id": 3}], [[{"k": "exas", "v": "x", "id": 4}]]), _u("x", 5)], [[5, [1, 4]]], [],
+     "dev:except-name-outlives-handler"),
+    ("exas-after-wrong", [_a("x", 1), _try(2, [{"k": "call", "id": 3}], [[{"k": "exas", "v": "x", "id": 4}]]), _u("x", 5)], [[5, [4]]], [],
+     "viol:ReachingDefinitions"),
+    # walrus in an if test, with-as target, for target
+    ("ifw-binds", [{"k": "ifw", "v": "x", "id": 1, "body": [_u("x", 2)], "orelse": []}], [[2, [0]]], [], "viol:ReachingDefinitions"),
+    ("withas-binds", [{"k": "withas", "v": "x", "id": 1, "supp": False, "body": [_u("x", 2)]}], [[2, [0]]], [], "viol:ReachingDefinitions"),
+    ("forv-binds", [{"k": "forv", "v": "x", "id": 1, "body": [_u("x", 2)], "orelse": []}], [[2, [0]]], [], "viol:ReachingDefinitions"),
+    ("forv-after", [{"k": "forv", "v": "x", "id": 1, "body": [{"k": "call", "id": 2}], "orelse": []}, _u("x", 3)], [[3, [1]]], [],
+     "viol:ReachingDefinitions"),
+    # inner scopes
+    ("cuse-reads", [_a("x", 1), {"k": "cuse", "v": "x", "id": 2}], [[2, [0]]], [], "viol:ReachingDefinitions"),
+    ("citer-reads", [_a("x", 1), {"k": "citer", "v": "x", "id": 2}], [[2, [0]]], [], "viol:ReachingDefinitions"),
+    ("cbind-leak", [{"k": "cbind", "v": "x", "id": 1}, _u("x", 2)], [[2, [1]]], [], "viol:ReachingDefinitions"),
+    ("cbind-ok", [{"k": "cbind", "v": "x", "id": 1}, _u("x", 2)], [[2, [0]]], [], "ok"),
+    ("cwal-binds", [{"k": "cwal", "v": "x", "id": 1}, _u("x", 2)], [[2, [0]]], [], "viol:ReachingDefinitions"),
+    ("cwal-dev", [{"k": "cwal", "v": "x", "id": 1}, _u("x", 2)], [[2, [1]]], [], "dev:comprehension-walrus-assumed-executed"),
+    ("cwal-strict", [{"k": "cwal", "v": "x", "id": 1}, _u("x", 2)], [[2, [0, 1]]], [], "drift:reported"),
+    # match: a capture binds; it stays bound when the guard fails
+    ("match-cap-binds", [{"k": "match", "v": "x", "id": 1, "cases": [{"pat": "cap", "guard": False, "id": 111, "body": [_u("x", 2)]}]}],
+     [[2, [0]]], [], "viol:ReachingDefinitions"),
+    ("match-seq-may-fail", [{"k": "match", "v": "x", "id": 1, "cases": [{"pat": "seq", "guard": False, "id": 111, "body": [{"k": "call", "id": 2}]}]},
+                            _u("x", 3)], [[3, [111]]], [], "viol:ReachingDefinitions"),
+    ("match-guard-keeps", [{"k": "match", "v": "x", "id": 1, "cases": [{"pat": "cap", "guard": True, "id": 111, "body": [{"k": "return", "id": 2}]}]},
+                           _u("x", 3)], [[3, [111]]], [], "drift:reported"),
+    ("match-guard-dev", [{"k": "match", "v": "x", "id": 1, "cases": [{"pat": "cap", "guard": True, "id": 111, "body": [{"k": "return", "id": 2}]}]},
+                         _u("x", 3)], [[3, [0]]], [], "dev:match-capture-dropped-when-guard-fails"),
+    # the unbound marker and the diagnostic must go together
+    ("marker", [_u("x", 1)], [[1, []]], [], "drift:uninit-marker-vs-diagnostic"),
+]
+
+
+def selftest(check: core.Check) -> None:
+    obs = []
+    for i, (name, prog, uses, unused, _want) in enumerate(SELFTEST):
+        marks = [[1, 1]] if name == "marker" else []
+        obs.append({"tid": i, "prog": prog, "uses": uses, "unused": unused, "marks": marks})
+    verdicts, stats = core.adjudicate("ScopesTrace", "ScopesTrace.cfg", obs, timeout=600)
+    for i, (name, _prog, _uses, _unused, want) in enumerate(SELFTEST):
+        got = set(verdicts.get(i, []))
+        if (want == "ok" and got) or (want != "ok" and want not in got):
+            raise core.MachineryError(f"sensitivity self-test {name}: TLC gave {sorted(got)}, expected {want}")
+    check.cov["sensitivity_selftests"] = len(SELFTEST)
+    for name, cfg in (("unused-strict", "ScopeGen.unusedstrict.cfg"), ("binders-strict", "ScopeGen.bindersstrict.cfg")):
+        res = core.run_tlc("ScopeGen", cfg, timeout=900)
+        if res.violated not in ("InvUnusedStrict", "InvC09Strict"):
+            raise core.MachineryError(f"sensitivity self-test {cfg}: the strict invariant must be violated by the model of the "
+                                      f"known deviations, TLC said {res.violated} / {res.error}")
+        check.cov["sensitivity_selftests"] += 1
 
 
 def run(check: core.Check) -> None:
     quick = check.tier == "quick"
     rnd = random.Random(check.seed)
-    res = core.require_ok(core.run_tlc("ScopeGen", "ScopeGen.quick.cfg" if quick else "ScopeGen.thorough.cfg", timeout=3400),
-                          "ScopeGen exhaustive")
-    check.add_tlc("exhaustive", res)
-    em = core.require_ok(core.run_tlc("ScopeGenEmit", "ScopeGen.emit3.cfg" if quick else "ScopeGen.emit4.cfg", timeout=3000), "emit")
-    check.add_tlc("emit", em)
-    progs = core.emitted_json(em)
+    check.cov["information"] = {}
+    jobs = [("exhaustive", "ScopeGen", "ScopeGen.quick.cfg" if quick else "ScopeGen.thorough.cfg"),
+            ("emit", "ScopeGenEmit", "ScopeGen.emit3.cfg" if quick else "ScopeGen.emit4.cfg"),
+            ("nested5", "ScopeGenEmit", "ScopeGen.nested5.cfg"),
+            ("closure4", "ScopeGenEmit", "ScopeGen.closure.cfg"),
+            ("loopexit7", "ScopeGenEmit", "ScopeGen.loopexit.cfg"),
+            ("loopcont6", "ScopeGenEmit", "ScopeGen.loopcont.cfg"),
+            ("finally5", "ScopeGenEmit", "ScopeGen.finally.cfg"),
+            ("binders4", "ScopeGenEmit", "ScopeGen.binders.cfg"),
+            ("inner4", "ScopeGenEmit", "ScopeGen.inner.cfg"),
+            ("match5", "ScopeGenEmit", "ScopeGen.match.cfg")]
+    if not quick:
+        jobs += [("nested6-model-only", "ScopeGen", "ScopeGen.nested6.cfg"),
+                 ("loopcont7-model-only", "ScopeGen", "ScopeGen.loopcont7.cfg"),
+                 ("finally6", "ScopeGenEmit", "ScopeGen.finally6.cfg"),
+                 ("binders5-model-only", "ScopeGen", "ScopeGen.binders5.cfg"),
+                 ("inner5-model-only", "ScopeGen", "ScopeGen.inner5.cfg")]
+    results = _tlc_many(jobs) if quick else {name: core.run_tlc(module, cfg, timeout=3400) for name, module, cfg in jobs}
+    for name, _m, cfg in jobs:
+        core.require_ok(results[name], f"ScopeGen {cfg}")
+        check.add_tlc(name, results[name])
+    selftest(check)
+    progs = core.emitted_json(results["emit"])
     limit = 1000 if quick else 10**7
     exhaustive = len(progs) <= limit
     if not exhaustive:
         progs = rnd.sample(progs, limit)
     check.cov["exhaustive"] = exhaustive
-    check.cov["rule"] = "function bodies built by TLC's generator (ScopeGen.tla); non-trivial = contains a control construct"
+    check.cov["rule"] = ("function bodies built by TLC's generator (ScopeGen.tla); non-trivial = contains a control construct. "
+                         "Slices: all bodies <= 4 (thorough 6) statements / 2 variables on the model (InvAll: reaching definitions "
+                         "and unused-variable reports), replayed <= 3 (4) statements; nested5 try/suppressing-with in if-branches; "
+                         "closure4; loopexit7 (break under try / suppressing with); loopcont6 (thorough 7 on the model: one loop, if / try "
+                         "branches leaving by continue / break / return); finally5 (thorough 6: for + try, finally clause "
+                         "reading what body / handlers / else bind, break / continue through finally); binders4 (thorough 5 on the "
+                         "model: augmented assignment, import, walrus-if, with-as, for target, except-as; if / for / with / try "
+                         "nesting, one variable); inner4 (thorough 5 on the model: comprehension / lambda reads, first iterable, "
+                         "comprehension / lambda / class-body bindings that must not leak, walrus in a comprehension; if / for); match5 "
+                         "(match statements with one or two cases: capture, sequence capture, wildcard, guards; nested in if / match)")
     judge(check, progs, "tlc-exhaustive")
     # targeted slice: try / suppressing with nested in if-branches, one variable, depth 3 (5 statements exhaustively on
     # the model; replayed exhaustively in both tiers; 6 statements model-checked in thorough)
-    nest = core.require_ok(core.run_tlc("ScopeGenEmit", "ScopeGen.nested5.cfg", timeout=3000), "ScopeGen nested5")
-    check.add_tlc("nested5", nest)
-    nprogs = core.emitted_json(nest)
-    judge(check, nprogs, "tlc-nested-suppress")
+    judge(check, core.emitted_json(results["nested5"]), "tlc-nested-suppress")
     # closures: nested functions reading a variable of the enclosing function or assigning it through `nonlocal`, and
     # calls of them (4 statements, if-nesting; replayed exhaustively in both tiers)
-    clo = core.require_ok(core.run_tlc("ScopeGenEmit", "ScopeGen.closure.cfg", timeout=3000), "ScopeGen closure")
-    check.add_tlc("closure4", clo)
-    judge(check, core.emitted_json(clo), "tlc-closures")
+    judge(check, core.emitted_json(results["closure4"]), "tlc-closures")
     # loop exits: one loop whose body contains a try statement / suppressing with and a break inside it (7 statements on
     # the model; the 47k bodies with a break under a try / suppressing with are replayed -- a seeded sample in the quick tier)
-    lx = core.require_ok(core.run_tlc("ScopeGenEmit", "ScopeGen.loopexit.cfg", timeout=3000), "ScopeGen loopexit")
-    check.add_tlc("loopexit7", lx)
-    lprogs = core.emitted_json(lx)
+    lprogs = core.emitted_json(results["loopexit7"])
     if quick:
         lprogs = rnd.sample(lprogs, 5000)
     judge(check, lprogs, "tlc-loop-exit")
+    # loop-carried definitions: one loop with if / try branches that leave by continue / break / return (6 statements; the
+    # bodies with a continue and a use are replayed -- a seeded sample in the quick tier; 7 statements on the model in thorough)
+    cprogs = core.emitted_json(results["loopcont6"])
+    if quick:
+        cprogs = rnd.sample(cprogs, 2500)
+    judge(check, cprogs, "tlc-loop-continue")
+    # finally clauses: for + try/except/else/finally, the finally clause reads a variable that the body / a handler / the
+    # else clause binds (blocks that bind and then return / break / continue, re-binding after a call), and break / continue
+    # leaving through a finally clause (5 statements, replayed exhaustively; 6 statements in thorough, sampled)
+    fprogs = core.emitted_json(results["finally5"])
     if not quick:
-        nest6 = core.require_ok(core.run_tlc("ScopeGen", "ScopeGen.nested6.cfg", timeout=3400), "ScopeGen nested6")
-        check.add_tlc("nested6-model-only", nest6)
+        f6 = core.emitted_json(results["finally6"])
+        fprogs += rnd.sample(f6, min(len(f6), 30000))
+    judge(check, fprogs, "tlc-finally")
+    # other binding forms, observed on the state anchor itself (usage_to_definition_nodes of the function scope) because
+    # their values are not literals; replayed exhaustively in thorough, a seeded sample in quick
+    bprogs = core.emitted_json(results["binders4"])
+    if quick:
+        bprogs = rnd.sample(bprogs, 3000)
+    judge(check, bprogs, "tlc-binders", mode="nodes", need_use=False)
+    iprogs = core.emitted_json(results["inner4"])
+    if quick:
+        iprogs = rnd.sample(iprogs, 900)
+    judge(check, _with_forms(iprogs), "tlc-inner-scopes", mode="nodes", need_use=False)
+    # match statements: captures (`case x`, `case [x]`), guards, the wildcard; nested in if / match (5 statements)
+    mprogs = [p for p in core.emitted_json(results["match5"]) if _has_kind(p["prog"], "match")]
+    if quick:
+        mprogs = rnd.sample(mprogs, 1500)
+    judge(check, mprogs, "tlc-match", mode="nodes")
     sim = core.simulate_cases("ScopeGenEmit", "ScopeGen.sim.cfg", 120 if quick else 12000, depth=30, seed=check.seed + 9,
                               check=check)
     judge(check, sim, "tlc-simulate")
+    check.assumptions.append(
+        "C09 domain: no dead code after return/raise/break/continue in a block; `del` is not generated (pyanalyze treats `del x` as a "
+        "read, _is_read_ctx); `global` is not generated (module variables are flow-insensitive by design); a class body READING a "
+        "function variable is not generated (resolved without node context, flow-insensitively, by design); match subjects are "
+        "calls (no narrowing of a subject variable: that is C02's matter). Bindings without a literal value are observed on FunctionScope.usage_to_definition_nodes "
+        "(captured when _check_function_unused_vars runs) together with the undefined-name diagnostics; TLC checks that the "
+        "_UNINITIALIZED marker and the diagnostic agree.")
 
 
 def replay(check: core.Check, witness: dict) -> None:
-    judge(check, [{"prog": witness["case"]["prog"]}], "replay")
+    case = witness["case"]
+    check.cov.setdefault("information", {})
+    judge(check, [{"prog": case["prog"], "form": case.get("form", "comp")}], "replay", mode=case.get("mode", "value"), need_use=False)
